@@ -615,20 +615,33 @@ func RunSelectiveFetch(ruleset, scheme string, rng *vbase.Rng, r *vbase.Result, 
 func RunCatchupLostFetch(variant int, ruleset, scheme string, clients bool, rng *vbase.Rng, r *vbase.Result, enable func(*Monitors)) *Cluster {
 	cfg := Config{N: 4, Ruleset: ruleset, Scheme: scheme, Cache: 0, Leader: "script", Sched: []hotstuff.ID{1}, BatchSize: 1, Clients: clients,
 		Profile: "directed:catchup-lost-fetch", ByzRules: map[hotstuff.ID]string{}, Label: fmt.Sprintf("catchup-lost-fetch/%d", variant)}
+	lagIdx := 3
+	if variant >= 6 {
+		// n=7: replicas 1..5 make progress, replica 6 is the one cut off, replica 7 is Byzantine: it takes no part in the
+		// protocol, but it answers every block request, first, with a twin of the requested block
+		cfg.N, cfg.Scripted, lagIdx = 7, []hotstuff.ID{7}, 5
+		cfg.Profile = "directed:catchup-wrong-fetch"
+		cfg.Label = fmt.Sprintf("catchup-wrong-fetch/%d", variant)
+	}
 	c, err := NewCluster(cfg, rng, r)
 	if err != nil {
 		r.Inconclusive("cannot build catchup-lost-fetch cluster: " + err.Error())
 		return nil
 	}
 	enable(c.Mon)
-	lag := c.Actors[3]
+	lag := c.Actors[lagIdx]
 	lead := c.Actors[0]
 	done := func() *Cluster { c.Mon.atEnd(); c.Close(); return c }
 	c.Start()
 	c.Step = 1
 	c.roundsUntil(30, func() bool { return lag.Node.VS.View() >= 5 && len(c.Mon.commits[lag.Idx]) >= 1 })
 	c.FaultSteps++
-	c.Cut = map[[2]int]bool{{3, 0}: true, {3, 1}: true, {3, 2}: true}
+	c.Cut = map[[2]int]bool{}
+	for i := range c.Actors {
+		if i != lagIdx {
+			c.Cut[[2]int{lagIdx, i}] = true
+		}
+	}
 	c.CutLoss = true
 	target := lead.Node.VS.View() + hotstuff.View(4+variant%3)
 	c.roundsUntil(40, func() bool { return lead.Node.VS.View() >= target })
@@ -643,11 +656,16 @@ func RunCatchupLostFetch(variant int, ruleset, scheme string, clients bool, rng 
 	}
 	sort.Slice(missing, func(i, j int) bool { return missing[i].View() < missing[j].View() })
 	c.R.Obs("catchup_blocks_missed", int64(len(missing)))
-	if k := variant / 3 % 2; len(missing) > k+3 {
+	if k := variant / 3 % 2; len(missing) > k+3 && variant < 6 {
 		c.FetchDeny = map[hotstuff.Hash]int{missing[k].Hash(): 1}
+	} else if len(missing) > k+3 {
+		c.FetchTwin = map[hotstuff.Hash]int{missing[k].Hash(): 1 + variant%2}
 	}
 	c.roundsUntil(12, func() bool { return false })
 	c.R.Obs("catchup_fetch_replies_lost", int64(c.FetchLost))
+	if variant >= 6 {
+		c.R.Obs("catchup_fetch_replies_with_a_twin_block", int64(c.WrongFetchReplies))
+	}
 	return done()
 }
 
